@@ -70,7 +70,10 @@ def main():
             print(f"{'CAUGHT' if caught else 'MISSED'} {r['id']} ({r['property']}) demo clean/mutant rc = {r.get('demo_clean_rc')}/{r.get('demo_mutant_rc')} "
                   f"checks: " + ", ".join(f"{p}:rc={c['rc']}({c['wall']}s)" for p, c in r["checks"].items()) + (" ERROR " + r["error"] if "error" in r else ""), flush=True)
             out.append(r)
-    (VERIF / "seeded" / f"results-{a.tier}-seed{a.seed}.json").write_text(json.dumps(out, indent=1))
+    rp = VERIF / "seeded" / f"results-{a.tier}-seed{a.seed}.json"
+    prev = {r["id"]: r for r in json.loads(rp.read_text())} if rp.exists() else {}
+    prev.update({r["id"]: r for r in out})
+    rp.write_text(json.dumps([prev[k] for k in sorted(prev)], indent=1))
     missed = [r["id"] for r in out if r["checks"].get(r["property"], {}).get("rc") != 1]
     print(f"{len(out) - len(missed)}/{len(out)} seeded changes caught by the owning property's {a.tier} check; missed: {missed}")
 
